@@ -112,6 +112,7 @@ class Ghost:
         self.ONE = GVar(0, "one", Z(1), Z(1), "one")
         self._inv = {}
         self.opnds = []
+        self.publics = []
 
     # -- variables --------------------------------------------------------------
     def _new(self, kind, h, name=None, tie=False):
